@@ -6,7 +6,7 @@ incompatible candidates, unknown-labelled estimates, FP-labelled ground truth) a
 an independent two-stage greedy plus the blocking-pair predicate, both computed in Python from the
 matching values / label policy read through the public API."""
 from harness.lib.core import Prop
-from harness.props.C01 import ManagerCorr, MatchCorr
+from harness.props.C01 import ManagerCorr, MatchCorr, expected_live, helpers_vs_documentation
 
 
 def expected_label_ok(case, el, gl):
@@ -46,7 +46,14 @@ def oracle_c02(case, obs):
     if "via" not in case and (f["est_label"] != [o["label"] for o in case["est"]] or f["gt_label"] != [o["label"] for o in case["gt"]]):
         return "objects do not carry the labels they were built with"
     maximize = case["mode"].startswith("IOU")          # documented: distances minimised, IoU maximised
-    live, ok, val = obs["live"], obs["ok"], f["value"]
+    # "matchable" is decided HERE (frames and labels the objects were built with, the radius at the index of the ground truth's label,
+    # strict comparison in the direction of the mode), not by the helpers the matcher itself calls: a pair those helpers wrongly declare
+    # unmatchable must still show up as a blocking pair
+    msg = helpers_vs_documentation(case, obs)
+    if msg:
+        return msg
+    live, _ = expected_live(case, obs)
+    ok, val = obs["ok"], f["value"]
     # label policy truth table
     for e in range(n):
         for g in range(m):
@@ -158,7 +165,10 @@ class C02(Prop):
                   "matching classes. With ties the result depends on numpy's first-occurrence rule, which the model reproduces and the "
                   "correspondence checks; the theorems about blocking pairs hold with ties as well.")
     rule = ("as C01 with the 'contested' flavour (2-3 labels, tight clusters) for ~70 % of the scenes; non-trivial = some ground truth has >= 2 "
-            "matchable candidates and at least one pair is formed; plus the manager path of C01 (configured policy / radii reach the matcher)")
+            "matchable candidates and at least one pair is formed; plus the manager path of C01 (configured policy / radii reach the matcher; "
+            "3D and 2D-ROI evaluators, tracking tasks, target uuids); 'matchable' in the blocking-pair predicate and in the independent greedy is "
+            "recomputed from the case (frames / labels as built, radius at the index of the ground truth's label, strict comparison), and the "
+            "library's own matchable table is compared with it cell by cell")
     assumptions = ["objects carry geometry (3D boxes or 2D ROIs); the ROI-less 2D dispatch is C11",
                    "matching values are finite floats"]
     not_proved = ["optimality of the assignment in any global sense (the code implements a greedy, not an optimal assignment)",
